@@ -162,16 +162,16 @@ ARM_SCRIPTS = {
     # C11/C04: server confirms the client's channel close (a missing slot is the documented Close/CloseOk race)
     ('Method', 'n', 'channel', 'CloseOk'): [
         slot('slot_remove'),
-        'if(let Ok(_) = %s) > %ssend(%s.tx, Ok(io_loop::ChannelMessage::Method(%sAMQPClass::Channel(%schannel::AMQPMethod::CloseOk(%s)))))'
+        'case(%s ~ Ok(_)) > %ssend(%s.tx, Ok(io_loop::ChannelMessage::Method(%sAMQPClass::Channel(%schannel::AMQPMethod::CloseOk(%s)))))'
         % (slot('slot_remove'), CS, _REMOVED_OK, AP, AP, payload('channel', 'CloseOk')),
-    ] + notify_consumers_of(_REMOVED_OK, 'consumer::ConsumerMessage::ClientClosedChannel', 'if(let Ok(_) = %s) > ' % slot('slot_remove')),
+    ] + notify_consumers_of(_REMOVED_OK, 'consumer::ConsumerMessage::ClientClosedChannel', 'case(%s ~ Ok(_)) > ' % slot('slot_remove')),
     # C04/C11: consume-ok: duplicate tag is an error; otherwise an unbounded queue is stored under the tag and handed to the caller
     ('Method', 'n', 'basic', 'ConsumeOk'): None,  # checked field-wise by R07.4 / R03.6 / R04
     # C11: server cancels a consumer: terminal message to the removed consumer, CancelOk unless nowait
     ('Method', 'n', 'basic', 'Cancel'): [
         slot('slot_get_mut'),
         _removed_consumer(payload('basic', 'Cancel') + '.consumer_tag'),
-        'if(let Some(_) = %s) > %ssend(%s.Some.0, consumer::ConsumerMessage::ServerCancelled)'
+        'case(%s ~ Some(_)) > %ssend(%s.Some.0, consumer::ConsumerMessage::ServerCancelled)'
         % (_removed_consumer(payload('basic', 'Cancel') + '.consumer_tag'), CS, _removed_consumer(payload('basic', 'Cancel') + '.consumer_tag')),
         'if(!%s.nowait) > io_loop::Inner::push_method(inner, %s, %sbasic::AMQPMethod::CancelOk(%sbasic::CancelOk{consumer_tag: %s.consumer_tag}))'
         % (payload('basic', 'Cancel'), N, AP, AP, payload('basic', 'Cancel')),
@@ -182,7 +182,7 @@ ARM_SCRIPTS = {
         _removed_consumer(payload('basic', 'CancelOk') + '.consumer_tag'),
         '%ssend(%s.tx, Ok(io_loop::ChannelMessage::Method(%sAMQPClass::Basic(%sbasic::AMQPMethod::CancelOk(%s)))))'
         % (CS, _SLOTM, AP, AP, payload('basic', 'CancelOk')),
-        'if(let Some(_) = %s) > %ssend(%s.Some.0, consumer::ConsumerMessage::ClientCancelled)'
+        'case(%s ~ Some(_)) > %ssend(%s.Some.0, consumer::ConsumerMessage::ClientCancelled)'
         % (_removed_consumer(payload('basic', 'CancelOk') + '.consumer_tag'), CS, _removed_consumer(payload('basic', 'CancelOk') + '.consumer_tag')),
     ],
     # C04: no message for a get
